@@ -189,7 +189,7 @@ def contents(maxlen, vals=V):
     return out
 
 
-AREAS_Q = ['', '♥', '♡', '♥?♡', '♥!♡', '?♥', '♥?💕!♡', '?', '♥!💕?♡', '♥!?', '!♥?💕']
+AREAS_Q = ['', '♥', '♡', '♥?♡', '♥!♡', '?♥', '♥?💕!♡', '?', '♥!💕?♡', '♥!?', '!♥?💕', '♥💕', '♡?♥💕']
 AREAS_T = AREAS_Q + ['!', '!♥', '♡?♥!💕', '♥!💕?♡', '??♥', '!!']
 
 
